@@ -197,9 +197,11 @@ impl Scenario for Close {
                             continue;
                         }
                         v.push(json!({"who": who, "after": after, "stall": stall, "code": code}));
-                        // (no fine-mode variant here: a connection close notifies the open channels
-                        // in the iteration order of a randomly seeded HashMap, which fine mode would
-                        // turn into a difference between two runs of the same schedule)
+                        // fine mode (the order in which a connection close notifies the open channels
+                        // is that of a map whose hasher is fixed in verification builds)
+                        if tier == "thorough" && !stall && after == "closeok" {
+                            v.push(json!({"who": who, "after": after, "stall": stall, "code": code, "fine": true}));
+                        }
                         // a backlog of more than a megabyte behind the stalled transport when the
                         // close happens (sizes no other variant reaches)
                         if stall && after == "closeok" && code == 320 {
